@@ -26,7 +26,8 @@ def extra_builds(tier):
 
 
 def bounds(tier):
-    return {"seeds": len(seeds()), "every_length_0_to_300_for": "all seeds (+4095,4096,65536)" if tier == "thorough" else "two seeds", "boundary_lengths": list(BOUNDARY)}
+    return {"seeds": len(seeds()), "every_length_0_to_300_for": "all seeds (+4095,4096,65536)" if tier == "thorough" else "two seeds", "boundary_lengths": list(BOUNDARY),
+            "components": "C15 scalar (reduce steering), scalar hooks (muladd, recodings), fixed-base carry-chain scalars"}
 
 
 def validate_models(tier):
